@@ -2,6 +2,7 @@ package t_p2p
 
 import (
 	"context"
+	"math"
 	"fmt"
 	"sync"
 	"testing"
@@ -106,12 +107,17 @@ func TestC18ChainExchange(t *testing.T) {
 			}
 			return ok
 		}
+		var absTS *int64 // when set, the next admitted message carries exactly this timestamp
 		admit := func(label string, inst uint64, c *gpbft.ECChain, tsOffset time.Duration, raw []byte) (bool, string) {
 			var data []byte
 			if raw != nil {
 				data = raw
 			} else {
 				m := &chainexchange.Message{Instance: inst, Chain: c, Timestamp: clk.Now().Add(tsOffset).UnixMilli()}
+				if absTS != nil {
+					m.Timestamp = *absTS
+					absTS = nil
+				}
 				var err error
 				if data, err = cx.VerifEncode(m); err != nil {
 					return false, "unencodable"
@@ -193,7 +199,7 @@ func TestC18ChainExchange(t *testing.T) {
 					obligations = append(obligations, obligation{inst, c, "asked-for-then-admitted", nil})
 				}
 			case "remote-bad":
-				kind := rapid.SampledFrom([]string{"past", "too-distant", "empty", "malformed", "wrong-base", "stale", "future-timestamp", "undecodable"}).Draw(t, "bad")
+				kind := rapid.SampledFrom([]string{"past", "too-distant", "empty", "malformed", "wrong-base", "stale", "future-timestamp", "undecodable", "timestamp-far-outside"}).Draw(t, "bad")
 				inst := cur
 				c := mkChain(label, inst, baseOf(inst))
 				off := time.Duration(0)
@@ -217,6 +223,20 @@ func TestC18ChainExchange(t *testing.T) {
 					off = -maxAge - time.Duration(rapid.IntRange(1, 5000).Draw(t, "staleMs"))*time.Millisecond
 				case "future-timestamp":
 					off = time.Duration(rapid.IntRange(1, 5000).Draw(t, "futureMs")) * time.Millisecond
+				case "timestamp-far-outside":
+					// timestamps far outside the window, across the whole int64 range (milliseconds):
+					// none of them is within maxAge of now
+					now := clk.Now().UnixMilli()
+					ts := rapid.SampledFrom([]int64{0, 1, -1, math.MinInt64, math.MinInt64 + 1, math.MaxInt64, math.MaxInt64 - 1,
+						now - (1 << 40), now - (1 << 43), now - (1 << 44), now - 13_000_000_000_000, now - 9_300_000_000_000, now - 27_700_000_000_000, now - (1 << 62),
+						now + (1 << 40), now + (1 << 43), now + 13_000_000_000_000}).Draw(t, "farts")
+					if rapid.Bool().Draw(t, "farjitter") {
+						ts += int64(rapid.IntRange(-100000, 100000).Draw(t, "farjit")) * 1000
+						if d := now - ts; d >= 0 && d <= maxAge.Milliseconds() {
+							ts = now - maxAge.Milliseconds() - 1
+						}
+					}
+					absTS = &ts
 				case "undecodable":
 					raw = vgen.DetBytes(rapid.IntRange(0, 40).Draw(t, "rawlen"), "garbage", s)
 				}
